@@ -105,6 +105,9 @@ var mBadTrack = []string{"garbage", "1h60m", "8:00 - 7:00", " 1h", "25:00 - 26:0
 func genCommand(r *core.Rand, doc *ref.Doc, env MEnv, allowPause bool) MCmd {
 	c := genCommand0(r, doc, env, allowPause)
 	c.Warn = r.Bool()
+	if c.Date != nil && core.Hash64("date-notation", c.String())%4 == 0 {
+		c.DateSlash = true // the date argument typed with slashes
+	}
 	if r.Chance(1, 60) && len(c.Summary) > 0 {
 		// a summary line that is a bare carriage return: accepted by the argument decoder, but written to the file it reads as a CRLF blank line
 		c.Summary = append(append([]string{c.Summary[0]}, "\r"), c.Summary[1:]...)
